@@ -14,10 +14,12 @@ import CnvVerif.Driver.Coverage
 import CnvVerif.Driver.Effects
 import CnvVerif.Driver.Bins
 import CnvVerif.Driver.Vcf
+import CnvVerif.Driver.Descriptives
+import CnvVerif.Driver.Haar
 open Lean CnvVerif.Drv
 
 def handlers : List (String → Json → Option Json → R (Option Json)) :=
-  [handleInterval, handleCall, handleSegFilter, handleTile, handleCenter, handleFix, handleAccess, Genes.handleGenes, handleFormats, handleExport, Reference.handleReference, handleCoverage, handleEffects, handleBins, handleVcf]
+  [handleInterval, handleCall, handleSegFilter, handleTile, handleCenter, handleFix, handleAccess, Genes.handleGenes, handleFormats, handleExport, Reference.handleReference, handleCoverage, handleEffects, handleBins, handleVcf, handleDescriptives, Haar.handleHaar]
 
 def dispatch (op : String) (inp : Json) (impl : Option Json) : R Json := do
   for h in handlers do
